@@ -104,7 +104,8 @@ class MPU:
         return self.memory[addr]
 
     def WordAt(self, addr):
-        return self.ByteAt(addr) + (self.ByteAt(addr + 1) << self.BYTE_WIDTH)
+        return self.ByteAt(addr) + (
+            self.ByteAt((addr + 1) & self.addrMask) << self.BYTE_WIDTH)
 
     def WrapAt(self, addr):
         wrap = lambda x: (x & self.addrHighMask) + ((x + 1) & self.byteMask)
